@@ -2,7 +2,7 @@
 //
 // Strings are sequences of letters from a symbolic alphabet: letter 0 is an arbitrary 1-byte rune, letter 1 an
 // arbitrary 2-byte rune, letter 2 an arbitrary 3-byte rune (U+FFFD included), letter 3 an arbitrary 4-byte
-// rune; a text may additionally contain one arbitrary invalid byte (letter -1).  The trie depends on runes
+// rune (the assignment can be rotated by the job parameter rot); a text may additionally contain one arbitrary invalid byte (letter -1).  The trie depends on runes
 // only through order/equality and byte width, so the letter structure is concrete on a path while the rune
 // values are decided by the solver.
 package c05
@@ -23,7 +23,11 @@ func newAlphabet() *alphabet {
 	a := &alphabet{}
 	lo := []rune{0x20, 0x80, 0x800, 0x10000}
 	hi := []rune{0x7F, 0x7FF, 0xFFFF, utf8.MaxRune}
-	for i := 0; i < 4; i++ {
+	// rot rotates the assignment of UTF-8 widths to letters: letter l is a (1 + (l+rot)%4)-byte rune, so jobs
+	// over the first two or three letters can still be made to contain 4-byte runes
+	rot := vx.Param("rot", 0)
+	for l := 0; l < 4; l++ {
+		i := (l + rot) % 4
 		r := vx.Rune("letter")
 		vx.Assume(vx.And(r >= lo[i], vx.And(r <= hi[i], vx.Not(vx.And(r >= 0xD800, r <= 0xDFFF)))))
 		a.enc = append(a.enc, utf8.AppendRune(nil, r))
@@ -46,11 +50,11 @@ func (a *alphabet) str(ls []int) string {
 	return string(b)
 }
 
-func width(l int) int {
+func (a *alphabet) width(l int) int {
 	if l < 0 {
 		return 1
 	}
-	return l + 1
+	return len(a.enc[l])
 }
 
 // chooseLetters: a letter sequence of length 0..max over the first nl letters.
@@ -246,7 +250,7 @@ func Replace() {
 	ok := true
 	for i := 0; i < len(text); {
 		if !covered[i] {
-			w := width(text[i])
+			w := a.width(text[i])
 			if pos+w > len(out) {
 				ok = false
 				break
